@@ -3,6 +3,7 @@ import IpamVerif.Pending
 import IpamVerif.Shape
 import IpamVerif.OnePer
 import IpamVerif.Tight
+import IpamVerif.BootBasics
 /-!
 # Restarts inside the fragment (C03, C01 across restarts)
 
@@ -1258,5 +1259,635 @@ theorem sortNodeObjs_complete {l : List NodeObj} (h : (l.map (·.name)).Nodup) {
   | some w =>
     obtain ⟨hw, hwn⟩ := Safety.mem_of_getNode hg
     rw [eq_of_nodup_names h hw hv hwn]
+
+/-! ## start-up re-establishes the invariant -/
+
+theorem mem_getElem? {l : List CC} {c : CC} (h : c ∈ l) : ∃ i : Nat, l[i]? = some c := List.getElem?_of_mem h
+
+theorem inv_boot {s : Sys} (h : Inv s) (hc : CCI s.api.ccs s.ccView s.alloc) (svcs : List Cidr) (ws : List WOut)
+    (hsv : ∀ sv ∈ svcs, sv.WF) (hspec : ∀ o ∈ s.api.ccs, C09.SpecOK o.spec)
+    (hrd : RangesDisj (boot s svcs ws).1.alloc) :
+    Inv (boot s svcs ws).1 ∧ CCI (boot s svcs ws).1.api.ccs (boot s svcs ws).1.ccView (boot s svcs ws).1.alloc := by
+  -- the stages of `boot`
+  let s0 : Sys := { s with alloc := ⟨[]⟩, nodeView := [], ccView := [], nodeQ := [], ccQ := [], svcs := svcs }
+  let s1 : Sys := (bootCCs s0 (sortCCObjs s.api.ccs) ws []).1
+  let al1 : Alloc := svcs.foldl (fun a sv => a.filterService sv) s1.alloc
+  let L : List NodeObj := sortNodeObjs s.api.nodes
+  let al2 : Alloc := bootNodes al1 L
+  let sF : Sys := { s1 with alloc := al2, nodeView := s1.api.nodes, ccView := s1.api.ccs, nodeQ := sortNames (s1.api.nodes.map (·.name)), ccQ := sortNames (s1.api.ccs.map (·.name)) }
+  have hboot : (boot s svcs ws).1 = sF := rfl
+  -- stage 1
+  have hbc0 : BC s.api.ccs s0 := by
+    refine ⟨fun n o0 hn => ⟨o0, hn, rfl⟩, ⟨?_, hc.gen, ?_, ?_, hc.delFin⟩, ?_⟩
+    · intro x hx; cases hx
+    · intro n v o hv; cases hv
+    · intro n v hv; cases hv
+    · intro c hcm; cases hcm
+  obtain ⟨hbc1, _, hcomplete⟩ := bootCCs_spec s.api.ccs hc.gen hc.delFin (sortCCObjs s.api.ccs) s0 ws [] hbc0
+    (sortCCObjs_get s.api.ccs)
+  have hinit : (Alloc.mk []).WF := by intro j c hj; simp [Alloc.get?] at hj
+  obtain ⟨hwf1, _, hnodes1⟩ := C09.bootCCs_WF (sortCCObjs s.api.ccs) s0 ws [] hinit
+    (fun o ho => hspec o (C09.mem_sortCCObjs _ _ ho))
+  have hnodes : s1.api.nodes = s.api.nodes := hnodes1
+  have hgraves : s1.api.graves = s.api.graves := bootCCs_graves _ _ _ _
+  -- stage 2
+  obtain ⟨hwfA, _, _⟩ := C09.filterAll_covers svcs s1.alloc hwf1 hsv
+  have hshA : SH al1 = SH s1.alloc := SH_filterAll svcs s1.alloc
+  have hfreshA := filterAll_fresh svcs s1.alloc hbc1.fresh
+  have hsh2 : SH al2 = SH al1 := SH_bootNodes L al1
+  have hrd1 : RangesDisj al1 := by
+    rw [hboot] at hrd
+    exact rangesDisj_of_SH hsh2 hrd
+  -- stage 3: the loop
+  have hbn0 : BN al1 al1 [] := by
+    refine ⟨hwfA, rfl, ?_, ?_, ?_, ?_⟩
+    · intro i c hg
+      exact (hfreshA c (List.mem_of_getElem? hg)).2
+    · rintro x i ⟨c, hg, hx⟩
+      rw [(hfreshA c (List.mem_of_getElem? hg)).1] at hx; cases hx
+    · rintro x i j ⟨c, hg, hx⟩
+      rw [(hfreshA c (List.mem_of_getElem? hg)).1] at hx; cases hx
+    · intro v hv; cases hv
+  have hLmem : ∀ n ∈ L, n ∈ s.api.nodes := fun n hn => C09.mem_sortNodeObjs _ _ hn
+  have hhome : ∀ n ∈ L, n.junk = false ∧ (n.deleting = false → n.cidrs ≠ [] → Home al1 n) := by
+    intro n hn
+    have hnapi := hLmem n hn
+    have hnobj : n ∈ Objs s := List.mem_append_left _ (List.mem_append_left _ hnapi)
+    refine ⟨h.obj.nojunk n hnobj, ?_⟩
+    intro hd hne
+    obtain ⟨i, hcl, hused⟩ := h.held n (List.mem_append_left _ hnapi) hne (Or.inl hd)
+    obtain ⟨c, hg, hm⟩ := h.obj.elig i n.name hcl n hnobj rfl
+    -- the API object behind entry `i`, and the entry rebuilt from it
+    obtain ⟨o, c0, ho, hbf, hshc⟩ := hc.ent (sh c) (mem_SH.mpr ⟨c, List.mem_of_getElem? hg, rfl⟩)
+    have hin := hcomplete o (sortCCObjs_complete s.api.ccs ho) c0 hbf
+    rw [← hshA] at hin
+    obtain ⟨d, hdm, hds⟩ := mem_SH.mp hin
+    obtain ⟨i', hi'⟩ := mem_getElem? hdm
+    have hdc : sh d = sh c := by rw [hds, hshc]
+    obtain ⟨hk, _, hr⟩ := kn_of_sh hdc
+    refine ⟨i', d, hi', by rw [hk, hr]; exact hm, ?_⟩
+    intro cd hcd
+    obtain ⟨c', p, k, hg', hp, hkin, hb⟩ := hused cd hcd
+    rw [hg] at hg'; cases hg'
+    have hkm : k < p.max := (h.wf i c hg _ p hp).1.bound k hkin
+    exact isBlock_of_sh hdc ⟨p, k, hp, hkm, hb⟩
+  have hbn : BN al1 al2 L := by
+    have := bootNodes_spec al1 hrd1 L al1 [] hbn0 (sortNodeObjs_nodup h.nodupApi) (fun v hv => by cases hv) hhome
+    simpa using this
+  -- names identify the listed nodes
+  have hLcomplete : ∀ v ∈ s.api.nodes, v ∈ L := fun v hv => sortNodeObjs_complete h.nodupApi hv
+  have hident : ∀ v ∈ L, ∀ w, w ∈ s.api.nodes ++ s.api.nodes ++ s.api.graves → w.name = v.name → w = v := by
+    intro v hv w hw hn
+    have hvapi := hLmem v hv
+    rcases List.mem_append.mp hw with hw | hw
+    · have hw' : w ∈ s.api.nodes := by rcases List.mem_append.mp hw with hw | hw <;> exact hw
+      exact eq_of_nodup_names h.nodupApi hw' hvapi hn
+    · exact absurd hn (h.gravesFresh w hw v hvapi)
+  have hsub : ∀ w, w ∈ s.api.nodes ++ s.api.nodes ++ s.api.graves → w ∈ Objs s := by
+    intro w hw
+    rcases List.mem_append.mp hw with hw | hw
+    · have hw' : w ∈ s.api.nodes := by rcases List.mem_append.mp hw with hw | hw <;> exact hw
+      exact List.mem_append_left _ (List.mem_append_left _ hw')
+    · exact List.mem_append_right _ hw
+  have hno := h.noOverlap
+  constructor
+  · rw [hboot]
+    constructor
+    · exact hbn.wf
+    · rw [hboot] at hrd; exact hrd
+    · show (s1.api.nodes.map (·.name)).Nodup
+      rw [hnodes]; exact h.nodupApi
+    · show (s1.api.nodes.map (·.name)).Nodup
+      rw [hnodes]; exact h.nodupApi
+    · show (s1.api.graves.map (·.name)).Nodup
+      rw [hgraves]; exact h.nodupGraves
+    · intro v hv
+      exact Or.inl ⟨v, hv, rfl⟩
+    · show ObjInv (s1.api.nodes ++ s1.api.nodes ++ s1.api.graves) al2
+      rw [hnodes, hgraves]
+      refine ⟨fun v hv => h.obj.nojunk v (hsub v hv), fun v hv => h.obj.cidrWF v (hsub v hv),
+        fun v hv w hw => h.obj.coh v (hsub v hv) w (hsub w hw), fun v hv w hw => h.obj.lab v (hsub v hv) w (hsub w hw), ?_, ?_⟩
+      · intro i j x x' hci hcj hne v hv w hw hvx hwx
+        obtain ⟨v0, hv0, hv0n, hv0d, _⟩ := hbn.cl x i hci
+        obtain ⟨w0, hw0, hw0n, hw0d, _⟩ := hbn.cl x' j hcj
+        have e1 := hident v0 hv0 v hv (by rw [hvx, hv0n])
+        have e2 := hident w0 hw0 w hw (by rw [hwx, hw0n])
+        rw [e1, e2]
+        exact hno v0 (hLmem v0 hv0) w0 (hLmem w0 hw0) (by rw [hv0n, hw0n]; exact hne) hv0d hw0d
+      · intro i x hci v hv hvx
+        obtain ⟨v0, hv0, hv0n, _, _, _, hel⟩ := hbn.cl x i hci
+        have e1 := hident v0 hv0 v hv (by rw [hvx, hv0n])
+        rw [e1]; exact hel
+    · intro v hv y hy hn hd
+      have hv' : v ∈ s.api.nodes := by have hv2 : v ∈ s1.api.nodes := hv; rw [hnodes] at hv2; exact hv2
+      have hy' : y ∈ s.api.nodes := by have hy2 : y ∈ s1.api.nodes := hy; rw [hnodes] at hy2; exact hy2
+      rw [← eq_of_nodup_names h.nodupApi hv' hy' hn]; exact hd
+    · intro g hg y hy
+      have hg2 : g ∈ s1.api.graves := hg
+      have hy2 : y ∈ s1.api.nodes := hy
+      rw [hgraves] at hg2; rw [hnodes] at hy2
+      exact h.gravesFresh g hg2 y hy2
+    · intro i x hci
+      obtain ⟨v0, hv0, hv0n, _, hv0c, hv0u, _⟩ := hbn.cl x i hci
+      refine ⟨v0, ?_, hv0n, hv0c, hv0u⟩
+      show v0 ∈ s1.api.nodes ++ s1.api.graves
+      rw [hnodes]
+      exact List.mem_append_left _ (hLmem v0 hv0)
+    · intro i j x hci hcj; exact hbn.uq x i j hci hcj
+    · intro v hv0' hne hlive0
+      have hv : v ∈ s1.api.nodes ++ s1.api.nodes := hv0'
+      have hlive : v.deleting = false ∨ ∃ w ∈ s1.api.nodes, w.name = v.name ∧ w.deleting = false := hlive0
+      rw [hnodes] at hv hlive
+      have hv' : v ∈ s.api.nodes := by rcases List.mem_append.mp hv with hv | hv <;> exact hv
+      have hvd : v.deleting = false := by
+        rcases hlive with hl | ⟨w, hw, hwn, hwd⟩
+        · exact hl
+        · rw [← eq_of_nodup_names h.nodupApi hw hv' hwn]; exact hwd
+      have hvL := hLcomplete v hv'
+      obtain ⟨i, hci⟩ := hbn.sv v hvL hvd hne
+      obtain ⟨v0, hv0, hv0n, _, _, hv0u, _⟩ := hbn.cl v.name i hci
+      have : v0 = v := eq_of_nodup_names h.nodupApi (hLmem v0 hv0) hv' hv0n
+      rw [this] at hv0u
+      exact ⟨i, hci, hv0u⟩
+    · intro i x hci
+      obtain ⟨v0, hv0, hv0n, _⟩ := hbn.cl x i hci
+      refine ⟨v0, ?_, hv0n⟩
+      show v0 ∈ s1.api.nodes
+      rw [hnodes]; exact hLmem v0 hv0
+  · rw [hboot]
+    show CCI s1.api.ccs s1.api.ccs al2
+    exact cci_alloc (cci_view_api hbc1.cci) (by rw [hsh2, hshA])
+
+/-! ## the history theorem with restarts -/
+
+structure Inv3 (s : Sys) : Prop where
+  inv : Inv s
+  cci : CCI s.api.ccs s.ccView s.alloc
+  one : OnePer.NoDupKN s.alloc
+
+theorem frag_of_frag3 {s : Sys} {e : Ev} (hnb : ∀ sv ws, e ≠ .boot sv ws) (hf : Frag3 s e) : Frag s e := by
+  cases e with
+  | boot sv ws => exact absurd rfl (hnb sv ws)
+  | ccGen name g => exact hf.elim
+  | ccAdd name spec => trivial
+  | ccDel name => trivial
+  | nodeAdd n => exact hf
+  | nodeDel name => exact hf
+  | nodeLabels name ls => exact hf
+  | nodeDeleting name => exact hf
+  | ccAddFin name fin => exact hf
+  | nodeSetCIDRs name cidrs => exact hf
+  | deliverNode name tomb => exact hf
+  | deliverCC name => exact hf
+  | procNode name refresh ws => exact hf
+  | procCC name w => exact hf
+
+theorem inv3_step {s : Sys} (h : Inv3 s) (e : Ev) (hf : Frag3 s e) : Inv3 (step s e).1 := by
+  by_cases hb : ∃ sv ws, e = .boot sv ws
+  · obtain ⟨sv, ws, rfl⟩ := hb
+    obtain ⟨h1, h2, h3⟩ := hf
+    obtain ⟨k1, k2⟩ := inv_boot h.inv h.cci sv ws h1 h2 h3
+    exact ⟨k1, k2, OnePer.nodup_step h.one _⟩
+  · have hnb : ∀ sv ws, e ≠ .boot sv ws := fun sv ws he => hb ⟨sv, ws, he⟩
+    exact ⟨inv_step h.inv e (frag_of_frag3 hnb hf), cci_step h.cci h.one e hnb hf, OnePer.nodup_step h.one e⟩
+
+def Frag3All : Sys → List Ev → Prop
+  | _, [] => True
+  | s, e :: rest => Frag3 s e ∧ Frag3All (step s e).1 rest
+
+theorem inv3_run : ∀ (evs : List Ev) (s : Sys), Inv3 s → Frag3All s evs → Inv3 (run s evs) := by
+  intro evs
+  induction evs with
+  | nil => intro s h _; exact h
+  | cons e rest ih =>
+    intro s h hf
+    have : run s (e :: rest) = run (step s e).1 rest := by simp [run]
+    rw [this]
+    exact ih _ (inv3_step h e hf.1) hf.2
+
+/-- a start satisfying `Inv` whose mapped entries were built from the ClusterCIDR objects the API holds -/
+theorem inv3_of_inv {s : Sys} (h : Inv s) (hc : CCI s.api.ccs s.ccView s.alloc) (ho : OnePer.NoDupKN s.alloc) : Inv3 s := ⟨h, hc, ho⟩
+
+/-- **no two existing nodes overlap, at any moment of any history of the fragment — restarts included** -/
+theorem no_overlap_across_restarts (s : Sys) (hs : Inv3 s) (evs : List Ev) (hf : Frag3All s evs) :
+    NoOverlap (run s evs) := (inv3_run evs s hs hf).inv.noOverlap
+
+/-- **every existing holder is recorded again by the new incarnation**: right after a restart every node that exists,
+is not being deleted and has pod CIDRs is associated with exactly one entry, in which all of them are in use -/
+theorem restart_records_every_holder {s : Sys} (h : Inv3 s) (svcs : List Cidr) (ws : List WOut) (hf : Frag3 s (.boot svcs ws)) :
+    ∀ v ∈ (boot s svcs ws).1.api.nodes, v.deleting = false → v.cidrs ≠ [] →
+      ∃ i, Claims (boot s svcs ws).1.alloc v.name i ∧ (∀ cd ∈ v.cidrs, UsedAt (boot s svcs ws).1.alloc i cd) ∧
+        ∀ j, Claims (boot s svcs ws).1.alloc v.name j → j = i := by
+  intro v hv hd hne
+  have k := (inv3_step h (.boot svcs ws) hf).inv
+  obtain ⟨i, hci, hu⟩ := k.held v (List.mem_append_left _ hv) hne (Or.inl hd)
+  exact ⟨i, hci, hu, fun j hcj => k.uniq j i v.name hcj hci⟩
+
+/-- **nothing is resurrected**: after a restart every association belongs to a node the API lists, with pod CIDRs
+that are all in use in that entry — reservations of the previous incarnation that were never written are gone -/
+theorem restart_claims_listed {s : Sys} (h : Inv3 s) (svcs : List Cidr) (ws : List WOut) (hf : Frag3 s (.boot svcs ws)) :
+    ∀ i x, Claims (boot s svcs ws).1.alloc x i →
+      ∃ v ∈ (boot s svcs ws).1.api.nodes, v.name = x ∧ v.cidrs ≠ [] ∧ ∀ cd ∈ v.cidrs, UsedAt (boot s svcs ws).1.alloc i cd := by
+  intro i x hc
+  have k := (inv3_step h (.boot svcs ws) hf).inv
+  have k' : Inv (boot s svcs ws).1 := k
+  obtain ⟨v, hv, hvn, hvc, hvu⟩ := k'.own i x hc
+  obtain ⟨w, hw, hwn⟩ := k'.pend i x hc
+  rw [(C03.boot_views s svcs ws).1] at hw
+  rcases List.mem_append.mp hv with hv | hv
+  · exact ⟨v, hv, hvn, hvc, hvu⟩
+  · exact absurd (by rw [hvn, hwn]) (k'.gravesFresh v hv w hw)
+
+/-! ## a crash right after a node write whose answer never arrived
+
+Without a restart a node write that is applied but reported as failed is finding P13 (the reservation is released
+although the node now holds the block), so `Frag` excludes it.  Followed by a restart it is harmless: the new
+incarnation is a function of the API state (`C03.boot_depends_on_api_only`), and the API state after an item with
+lost answers is the API state after the same item with those answers delivered. -/
+
+def okify (ws : List WOut) : List WOut := ws.map (fun w => if w = .lost then .ok else w)
+
+theorem okify_headD (ws : List WOut) : (okify ws).headD .ok = (if ws.headD .ok = .lost then .ok else ws.headD .ok) := by
+  cases ws with
+  | nil => rfl
+  | cons w t => rfl
+
+theorem okify_tail (ws : List WOut) : (okify ws).tail = okify ws.tail := by
+  cases ws with
+  | nil => rfl
+  | cons w t => rfl
+
+/-- the API side of the PATCH retry loop -/
+def apiAfter (name : String) (cidrs : List Cidr) : Nat → Api → List WOut → Api
+  | 0, a, _ => a
+  | k + 1, a, ws =>
+    match ws.headD .ok with
+    | .fail => apiAfter name cidrs k a ws.tail
+    | .ok => if (a.patchNode name cidrs).2 = true then (a.patchNode name cidrs).1 else apiAfter name cidrs k (a.patchNode name cidrs).1 ws.tail
+    | .lost => apiAfter name cidrs k (a.patchNode name cidrs).1 ws.tail
+
+theorem patchLoop_api (name : String) (cidrs : List Cidr) : ∀ (k : Nat) (a : Api) (ws : List WOut)
+    (acc : List (String × List Cidr × String)), (patchLoop a name cidrs k ws acc).1 = apiAfter name cidrs k a ws := by
+  intro k
+  induction k with
+  | zero => intro a ws acc; rfl
+  | succ k ih =>
+    intro a ws acc
+    unfold patchLoop apiAfter
+    cases hw : ws.headD .ok with
+    | fail =>
+      have : attemptPatch a name cidrs .fail = (a, false, "fail") := rfl
+      simp only [this]
+      exact ih _ _ _
+    | ok =>
+      cases hp : a.patchNode name cidrs with
+      | mk a' acc0 =>
+        have : attemptPatch a name cidrs .ok = (a', acc0, if acc0 then "ok" else "rejected") := by
+          unfold attemptPatch; rw [hp]
+        simp only [this]
+        cases acc0 with
+        | true => simp
+        | false => simp; exact ih _ _ _
+    | lost =>
+      cases hp : a.patchNode name cidrs with
+      | mk a' acc0 =>
+        have : attemptPatch a name cidrs .lost = (a', false, if acc0 then "lost" else "rejected") := by
+          unfold attemptPatch; rw [hp]
+        simp only [this]
+        simp
+        exact ih _ _ _
+
+theorem patchNode_changes {a : Api} {name : String} {cidrs : List Cidr} :
+    (a.patchNode name cidrs).1 = a ∨
+    ∃ n, getNode a.nodes name = some n ∧ n.hasCidrs = false ∧
+      a.patchNode name cidrs = ({ a with nodes := putNode a.nodes { n with cidrs := cidrs } }, true) := by
+  unfold Api.patchNode
+  cases hg : getNode a.nodes name with
+  | none => left; rfl
+  | some n =>
+    simp only
+    cases hc : n.hasCidrs with
+    | false => right; exact ⟨n, rfl, hc, by simp⟩
+    | true =>
+      left
+      simp only [Bool.not_true, Bool.false_eq_true, if_false]
+      split <;> rfl
+
+/-- once the node has the CIDRs, further attempts of the same PATCH leave the API as it is -/
+theorem patchNode_fix {a : Api} {name : String} {cidrs : List Cidr} (hne : cidrs ≠ []) {n : NodeObj}
+    (hg : getNode a.nodes name = some n) (hc : n.hasCidrs = false) :
+    let a' : Api := { a with nodes := putNode a.nodes { n with cidrs := cidrs } }
+    a'.patchNode name cidrs = (a', true) := by
+  intro a'
+  have hname : n.name = name := (Safety.mem_of_getNode hg).2
+  have hself : getNode a'.nodes name = some { n with cidrs := cidrs } := by
+    have := Safety.getNode_putNode_self a.nodes { n with cidrs := cidrs }
+    simp only at this
+    rw [← hname]; exact this
+  have hjunk : n.junk = false := by
+    unfold NodeObj.hasCidrs at hc
+    cases hj : n.junk with
+    | false => rfl
+    | true => rw [hj] at hc; simp at hc
+  have hhas : (NodeObj.hasCidrs { n with cidrs := cidrs }) = true := by
+    unfold NodeObj.hasCidrs
+    cases cidrs with
+    | nil => exact absurd rfl hne
+    | cons _ _ => simp
+  unfold Api.patchNode
+  rw [hself]
+  simp only
+  rw [hhas]
+  simp [hjunk]
+
+theorem apiAfter_fix (name : String) (cidrs : List Cidr) {a : Api} (h : a.patchNode name cidrs = (a, true)) :
+    ∀ (k : Nat) (ws : List WOut), apiAfter name cidrs k a ws = a := by
+  intro k
+  induction k with
+  | zero => intro ws; rfl
+  | succ k ih =>
+    intro ws
+    unfold apiAfter
+    cases ws.headD .ok with
+    | fail => exact ih _
+    | ok => simp only [h, if_true]
+    | lost => simp only [h]; exact ih _
+
+theorem apiAfter_okify (name : String) (cidrs : List Cidr) (hne : cidrs ≠ []) : ∀ (k : Nat) (a : Api) (ws : List WOut),
+    apiAfter name cidrs k a ws = apiAfter name cidrs k a (okify ws) := by
+  intro k
+  induction k with
+  | zero => intro a ws; rfl
+  | succ k ih =>
+    intro a ws
+    unfold apiAfter
+    rw [okify_headD, okify_tail]
+    cases hw : ws.headD .ok with
+    | fail => simp only [reduceCtorEq, if_false]; exact ih _ _
+    | ok =>
+      simp only [reduceCtorEq, if_false]
+      split
+      · rfl
+      · exact ih _ _
+    | lost =>
+      simp only [if_true]
+      rcases @patchNode_changes a name cidrs with hsame | ⟨n, hg, hc, hp⟩
+      · -- nothing changed: the retry sees the same API
+        cases hacc : (a.patchNode name cidrs).2 with
+        | true =>
+          simp only [if_true]
+          have hfix : (a.patchNode name cidrs).1.patchNode name cidrs = ((a.patchNode name cidrs).1, true) := by
+            rw [hsame]
+            have : a.patchNode name cidrs = ((a.patchNode name cidrs).1, (a.patchNode name cidrs).2) := rfl
+            rw [this, hsame, hacc]
+          exact apiAfter_fix name cidrs hfix _ _
+        | false =>
+          simp only [Bool.false_eq_true, if_false]
+          exact ih _ _
+      · rw [hp]
+        simp only [if_true]
+        exact apiAfter_fix name cidrs (patchNode_fix hne hg hc) _ _
+
+theorem update_api_okify (s : Sys) (name : String) (cidrs : List Cidr) (i : Nat) (ws : List WOut) (hne : cidrs ≠ []) :
+    (updateCIDRsAllocation s name cidrs i ws).1.api = (updateCIDRsAllocation s name cidrs i (okify ws)).1.api := by
+  have key : (patchLoop s.api name cidrs 3 ws []).1 = (patchLoop s.api name cidrs 3 (okify ws) []).1 := by
+    rw [patchLoop_api, patchLoop_api]; exact apiAfter_okify name cidrs hne 3 s.api ws
+  unfold updateCIDRsAllocation
+  split
+  · rfl
+  · split
+    · rfl
+    · split
+      · cases s.alloc.releaseAll i cidrs with
+        | mk al okk => cases okk <;> rfl
+      · cases h1 : patchLoop s.api name cidrs 3 ws [] with
+        | mk a1 r1 =>
+          cases h2 : patchLoop s.api name cidrs 3 (okify ws) [] with
+          | mk a2 r2 =>
+            rw [h1, h2] at key
+            simp only at key
+            obtain ⟨o1, p1⟩ := r1
+            obtain ⟨o2, p2⟩ := r2
+            simp only
+            subst key
+            cases o1 <;> cases o2 <;> rfl
+
+theorem procNode_api_okify (s : Sys) (name : String) (refresh : Bool) (ws : List WOut) :
+    (procNode s name refresh ws).1.api = (procNode s name refresh (okify ws)).1.api := by
+  have core : ∀ t : Sys, (procNodeCore t name refresh ws).1.api = (procNodeCore t name refresh (okify ws)).1.api := by
+    intro t
+    unfold procNodeCore
+    split
+    · rfl
+    · rename_i n _
+      split
+      · rfl
+      · unfold allocateOrOccupy
+        split
+        · rfl
+        · split
+          · rfl
+          · rename_i al cidrs i _
+            split
+            · rfl
+            · rename_i hemp
+              have hne : cidrs ≠ [] := by intro h; apply hemp; rw [h]; rfl
+              simp only
+              split
+              · split
+                · exact update_api_okify _ _ _ _ _ hne
+                · exact update_api_okify _ _ _ _ _ hne
+              · exact update_api_okify _ _ _ _ _ hne
+  unfold procNode
+  simp only
+  have := core { s with nodeQ := qDel s.nodeQ name }
+  split <;> split <;> exact this
+
+theorem okify_frag (ws : List WOut) : ∀ w ∈ (okify ws).take 3, w ≠ WOut.lost := by
+  intro w hw
+  have := List.mem_of_mem_take hw
+  unfold okify at this
+  obtain ⟨w0, _, rfl⟩ := List.mem_map.mp this
+  split
+  · intro h; cases h
+  · assumption
+
+/-- **crash between a successful node write and recording it**: a node item with *any* write outcomes — also
+writes that were applied although the controller saw an error — followed by a restart leaves the controller in a
+state satisfying the invariant: no assignment is lost, none is handed out twice. -/
+theorem crash_after_node_write {s : Sys} (h : Inv3 s) (name : String) (refresh : Bool) (ws : List WOut)
+    (svcs : List Cidr) (ws' : List WOut) (hb : Frag3 (step s (.procNode name refresh ws)).1 (.boot svcs ws')) :
+    Inv3 (run s [.procNode name refresh ws, .boot svcs ws']) := by
+  have hrun : run s [.procNode name refresh ws, .boot svcs ws'] = (boot (step s (.procNode name refresh ws)).1 svcs ws').1 := by
+    simp [run, step]
+  have hapi : (step s (.procNode name refresh ws)).1.api = (step s (.procNode name refresh (okify ws))).1.api := by
+    simp only [step]
+    split
+    · exact procNode_api_okify s name refresh ws
+    · rfl
+  have hboot := C03.boot_depends_on_api_only _ _ hapi svcs ws'
+  rw [hrun, hboot]
+  have h1 : Inv3 (step s (.procNode name refresh (okify ws))).1 := inv3_step h _ (okify_frag ws)
+  obtain ⟨b1, b2, b3⟩ := hb
+  have hb' : Frag3 (step s (.procNode name refresh (okify ws))).1 (.boot svcs ws') := by
+    refine ⟨b1, ?_, ?_⟩
+    · rw [← hapi]; exact b2
+    · rw [← hboot]; exact b3
+  exact inv3_step h1 _ hb'
+
+/-! ## an executable test for membership in the fragment (used for the examples below) -/
+
+instance (fld : RangeField) (hb : Int) : Decidable (C09.FieldOK fld hb) := by
+  unfold C09.FieldOK
+  cases fld <;> simp only <;> exact inferInstance
+instance (sp : CCSpec) : Decidable (C09.SpecOK sp) := by unfold C09.SpecOK; exact inferInstance
+
+def poolAt (a : Alloc) (i : Nat) (f : Fam) : Option Pool := (a.ccs[i]?).bind (·.pool f)
+
+def rangesDisjB (a : Alloc) : Bool :=
+  (List.range a.ccs.length).all fun i => (List.range a.ccs.length).all fun j => i == j ||
+    [Fam.v4, Fam.v6].all fun f =>
+      match poolAt a i f, poolAt a j f with
+      | some p, some q => decide (p.geo.range.Disjoint q.geo.range)
+      | _, _ => true
+
+theorem rangesDisj_of_B {a : Alloc} (h : rangesDisjB a = true) : RangesDisj a := by
+  intro i j c d f p q hi hj hp hq hne
+  unfold Alloc.get? at hi hj
+  have hil : i < a.ccs.length := (List.getElem?_eq_some_iff.mp hi).1
+  have hjl : j < a.ccs.length := (List.getElem?_eq_some_iff.mp hj).1
+  unfold rangesDisjB at h
+  rw [List.all_eq_true] at h
+  have h1 := h i (List.mem_range.mpr hil)
+  rw [List.all_eq_true] at h1
+  have h2 := h1 j (List.mem_range.mpr hjl)
+  simp only [Bool.or_eq_true, beq_iff_eq, hne, false_or, List.all_eq_true] at h2
+  have h3 := h2 f (by cases f <;> simp)
+  have e1 : poolAt a i f = some p := by unfold poolAt; rw [hi]; exact hp
+  have e2 : poolAt a j f = some q := by unfold poolAt; rw [hj]; exact hq
+  rw [e1, e2] at h3
+  simpa using h3
+
+def frag3B (s : Sys) : Ev → Bool
+  | .boot svcs ws => decide (∀ sv ∈ svcs, sv.WF) && decide (∀ o ∈ s.api.ccs, C09.SpecOK o.spec) && rangesDisjB (boot s svcs ws).1.alloc
+  | .nodeAdd n => decide (n.cidrs = []) && decide (n.junk = false) && decide (getNode s.nodeView n.name = none)
+  | .nodeDel _ => true
+  | .nodeDeleting _ => true
+  | .deliverNode name tomb => !tomb || (getNode s.api.nodes name).isSome
+  | .procNode _ _ ws => decide (∀ w ∈ ws.take 3, w ≠ WOut.lost)
+  | .ccAdd name _ => decide (getCC s.ccView name = none)
+  | .ccDel name => match getCC s.api.ccs name with
+      | none => true
+      | some o => hasFin o || (decide (∀ c ∈ s.alloc.ccs, c.name ≠ name) && decide (getCC s.ccView name = none))
+  | .ccAddFin _ _ => true
+  | .deliverCC _ => true
+  | .procCC name _ => match getCC s.ccView name with
+      | none => true
+      | some obj => obj.deleting || (decide (C09.SpecOK obj.spec) && match s.alloc.createCC obj.name obj.spec false with
+          | none => true
+          | some al => rangesDisjB al)
+  | _ => false
+
+theorem frag3_of_B {s : Sys} {e : Ev} (h : frag3B s e = true) : Frag3 s e := by
+  cases e with
+  | boot svcs ws =>
+    simp only [frag3B, Bool.and_eq_true, decide_eq_true_eq] at h
+    exact ⟨h.1.1, h.1.2, rangesDisj_of_B h.2⟩
+  | nodeAdd n =>
+    simp only [frag3B, Bool.and_eq_true, decide_eq_true_eq] at h
+    exact ⟨h.1.1, h.1.2, h.2⟩
+  | nodeDel name => trivial
+  | nodeDeleting name => trivial
+  | nodeLabels name ls => simp [frag3B] at h
+  | nodeSetCIDRs name cidrs => simp [frag3B] at h
+  | ccGen name g => simp [frag3B] at h
+  | deliverNode name tomb =>
+    intro ht
+    simp only [frag3B, ht, Bool.not_true, Bool.false_or] at h
+    exact h
+  | procNode name refresh ws =>
+    simp only [frag3B, decide_eq_true_eq] at h
+    exact h
+  | ccAdd name spec =>
+    simp only [frag3B, decide_eq_true_eq] at h
+    exact h
+  | ccDel name =>
+    intro o ho
+    simp only [frag3B, ho, Bool.or_eq_true, Bool.and_eq_true, decide_eq_true_eq] at h
+    exact h
+  | ccAddFin name fin => trivial
+  | deliverCC name => trivial
+  | procCC name w =>
+    intro obj hobj hd
+    simp only [frag3B, hobj, hd, Bool.false_or, Bool.and_eq_true, decide_eq_true_eq] at h
+    refine ⟨h.1, ?_⟩
+    intro al hal
+    rw [hal] at h
+    exact rangesDisj_of_B h.2
+
+def frag3AllB : Sys → List Ev → Bool
+  | _, [] => true
+  | s, e :: rest => frag3B s e && frag3AllB (step s e).1 rest
+
+theorem frag3All_of_B : ∀ (evs : List Ev) (s : Sys), frag3AllB s evs = true → Frag3All s evs := by
+  intro evs
+  induction evs with
+  | nil => intro _ _; trivial
+  | cons e rest ih =>
+    intro s h
+    simp only [frag3AllB, Bool.and_eq_true] at h
+    exact ⟨frag3_of_B h.1, ih _ h.2⟩
+
+/-! ## the hypotheses are satisfiable, and a history of the fragment with two restarts -/
+
+def exCCa : CCObj := ⟨"a", ⟨none, 4, .ok ⟨.v4, 0x0a000000, 27⟩ "10.0.0.0/27", .empty⟩, [], false, 1, 1⟩
+def exCCb : CCObj :=
+  ⟨"b", ⟨some [⟨[⟨"zone", "In", ["a"], true, true⟩], []⟩], 4, .ok ⟨.v4, 0x0a000100, 26⟩ "10.0.1.0/26", .empty⟩, [], false, 1, 2⟩
+/-- a cluster with two ClusterCIDR objects and a controller that has not started yet -/
+def exStart3 : Sys := { Sys.init with api := ⟨[], [exCCa, exCCb], []⟩ }
+
+theorem exStart3_inv3 : Inv3 exStart3 := by
+  refine ⟨?_, ?_, List.nodup_nil⟩
+  · apply inv_init
+    · intro i c hc; simp [Alloc.get?, exStart3, Sys.init] at hc
+    · intro i j c d f p q hi; simp [Alloc.get?, exStart3, Sys.init] at hi
+    · intro i c hc; simp [Alloc.get?, exStart3, Sys.init] at hc
+    · rfl
+    · rfl
+    · exact List.nodup_nil
+    · intro y hy; simp [exStart3] at hy
+  · have hmem : ∀ n o, getCC exStart3.api.ccs n = some o → o = exCCa ∨ o = exCCb := by
+      intro n o ho
+      have := (mem_of_getCC ho).1
+      simpa [exStart3] using this
+    refine ⟨?_, ?_, ?_, ?_, ?_⟩
+    · intro x hx; simp [SH, exStart3, Sys.init] at hx
+    · intro n o ho; rcases hmem n o ho with rfl | rfl <;> decide
+    · intro n v o hv; simp [exStart3, Sys.init, getCC] at hv
+    · intro n v hv; simp [exStart3, Sys.init, getCC] at hv
+    · intro n o ho hd; rcases hmem n o ho with rfl | rfl <;> simp [exCCa, exCCb] at hd
+
+def exHistory3 : List Ev :=
+  [.boot [] [],
+   .nodeAdd ⟨"n1", [], [], false, false⟩, .deliverNode "n1" false, .procNode "n1" false [],
+   .nodeAdd ⟨"n2", [], [], false, false⟩, .deliverNode "n2" false, .procNode "n2" false [],
+   -- n1 is marked for deletion and lingers; its block is released and goes to n3
+   .nodeDeleting "n1", .deliverNode "n1" false, .procNode "n1" false [],
+   .nodeAdd ⟨"n3", [], [], false, false⟩, .deliverNode "n3" false, .procNode "n3" false [],
+   -- the controller restarts (the second finalizer write fails), then n1 goes for good
+   .boot [] [.ok, .fail],
+   .nodeDel "n1", .deliverNode "n1" false,
+   .nodeAdd ⟨"n4", [], [], false, false⟩, .deliverNode "n4" false, .procNode "n4" false [],
+   .boot [⟨.v4, 0x0a000100, 28⟩] []]
+
+example : Frag3All exStart3 exHistory3 := frag3All_of_B _ _ (by decide +kernel)
+
+/-- n2 and n3 hold the two blocks of `a` (n3 the one n1 had), n4 — which the selector-less `a` alone can serve — gets
+nothing instead of a block in use -/
+example : (run exStart3 exHistory3).api.nodes.map (fun n => (n.name, n.cidrs.map (·.addr))) =
+    [("n2", [0x0a000010]), ("n3", [0x0a000000]), ("n4", [])] := by decide +kernel
+
+example : NoOverlap (run exStart3 exHistory3) :=
+  no_overlap_across_restarts _ exStart3_inv3 _ (frag3All_of_B _ _ (by decide +kernel))
 
 end Ipam.Restart
